@@ -152,6 +152,8 @@ def install(sched, remote_module, fail_first_launch=False):
             sched.spawn(self_.tid, lambda: self_.target(*self_.args, **self_.kwargs))
 
         def join(self_, timeout=None):
+            if self_.tid is None:
+                raise RuntimeError('cannot join thread before it is started')      # as threading.Thread does
             tid = _tls.tid
             while not sched.threads[self_.tid]['done']:
                 sched.threads[tid]['blocked'] = ('join', self_.tid)
